@@ -437,6 +437,41 @@ def native_part(chk):
                     'is' if same_dir else 'is not', 'none' if stale is None else repr(stale[:20]), '; '.join(problems)), {'job': 'solstat'})
             else:
                 chk.ok()
+        # the same with a configuration file: whatever it selects (nothing at all, one category only, one pattern), the run replaces the report
+        cfgs = {'nothing selected': 'optimizations = []\nvulnerabilities = []\nqa = []\n', 'only qa patterns': 'optimizations = []\nvulnerabilities = []\nqa = ["constructor_order"]\n',
+                'one optimization': 'optimizations = ["sstore"]\nvulnerabilities = []\nqa = []\n', 'a pattern without findings': 'optimizations = ["shift_math"]\nvulnerabilities = []\nqa = []\n'}
+        for cname, cfg in cfgs.items():
+            cfgp = os.path.join(base, 'cfg-%s.toml' % cname.replace(' ', '-'))
+            open(cfgp, 'w').write('path = "."\n' + cfg)         # the field is mandatory; --path decides
+            for stale in (None, 'STALE REPORT CONTENT THAT MUST DISAPPEAR\n- A.sol:999\n' * 50):
+                rp = os.path.join(cwd, 'solstat_report.md')
+                if stale is None:
+                    if os.path.exists(rp):
+                        os.remove(rp)
+                else:
+                    open(rp, 'w').write(stale)
+                before_t = tree_digest(target, skip=('solstat_report.md',) if same_dir else ())
+                before_c = tree_digest(cwd, skip=('solstat_report.md',))
+                p = subprocess.run([binary, '--toml', cfgp, '--path', '.' if same_dir else target], cwd=cwd, stdout=subprocess.PIPE, stderr=subprocess.PIPE, text=True)
+                chk.validated += 1
+                text = open(rp).read() if os.path.exists(rp) else None
+                problems = []
+                if p.returncode != 0:
+                    problems.append('exit status %d: %s' % (p.returncode, p.stderr[-200:]))
+                if before_t != tree_digest(target, skip=('solstat_report.md',) if same_dir else ()):
+                    problems.append('the analysed tree changed')
+                if before_c != tree_digest(cwd, skip=('solstat_report.md',)):
+                    problems.append('files other than solstat_report.md changed in the working directory')
+                if text is None:
+                    problems.append('no solstat_report.md written')
+                elif 'STALE REPORT' in text or '- A.sol:999' in text:
+                    problems.append('the previous report survived')
+                if problems:
+                    chk.violation('run:effects:configured', 'solstat --toml (%s) (cwd %s the analysed directory, stale report: %s): %s' % (
+                        cname, 'is' if same_dir else 'is not', 'none' if stale is None else 'yes', '; '.join(problems)),
+                                  {'job': 'solstat_cfg_effects', 'config': cfg, 'same_dir': same_dir, 'stale': stale})
+                else:
+                    chk.ok()
         if len({r for r in reports}) > 1:
             chk.violation('run:stale-report-influences-result', 'three runs over the same tree (no / large / entry-like stale report) wrote different reports', {'job': 'solstat'})
         else:
